@@ -65,7 +65,7 @@ def cases(tier, seed):
                 add('morphism', cfg, x, y)
     S3 = pat.SUB(3)
     for cfg in (dict(p=3), dict(p=2, r=1), dict(q=3), dict(name='2DPGA'), dict(p=1, q=1, r=1)):
-        n = 200 if tier == 'quick' else 3000
+        n = 200 if tier == 'quick' else 12000
         for _ in range(n):
             x, y = list(rng.choice(S3)), list(rng.choice(S3))
             if rng.random() < 0.5:
